@@ -145,8 +145,8 @@ def np_args(op, args, env):
                 out.append(np.asarray(v, np.int64))
             elif op == "Where":
                 out.append(np.asarray(v, arrs[1].dtype))
-            elif op == "Loop":
-                out.append(np.asarray(v))
+            elif op in ("Loop", "Scan"):     # trip count, condition, carried operands: the literal's own natural dtype
+                out.append(np.asarray(v, np.bool_ if isinstance(v, bool) else (np.int64 if isinstance(v, int) else np.float32)))
             else:
                 out.append(np.asarray(v, arrs[0].dtype if arrs else None))
     return out
@@ -267,31 +267,36 @@ def np_block(stmts, env, fdesc):
             env[s["outs"][0]] = e2[b["res"][0]]
         elif k == "loop":
             b = s["subs"][0]
-            cur = env[s["args"][2]["v"]]
+            a = np_args("Loop", s["args"], env)
+            curs = list(a[2:])
+            ncar = len(curs)
             acc = []
-            for it in range(LIT[s["args"][0]["l"]]):
+            for it in range(int(a[0])):
                 e2 = dict(env)
-                e2[b["ins"][0]], e2[b["ins"][1]], e2[b["ins"][2]] = np.array(it, np.int64), np.array(True), cur
+                for v, x in zip(b["ins"], [np.array(it, np.int64), np.array(True)] + curs):
+                    e2[v] = x
                 np_block(b["body"], e2, fdesc)
-                cur = e2[b["res"][1]]
-                if len(b["res"]) == 3:
-                    acc.append(e2[b["res"][2]])
-            env[s["outs"][0]] = cur
-            if len(s["outs"]) == 2:
-                env[s["outs"][1]] = np.stack(acc)
+                curs = [e2[v] for v in b["res"][1:1 + ncar]]
+                if len(b["res"]) > 1 + ncar:
+                    acc.append(e2[b["res"][-1]])
+            outs = curs + ([np.stack(acc)] if len(s["outs"]) > ncar else [])
+            for v, x in zip(s["outs"], outs):
+                env[v] = x
         elif k == "scan":
             b = s["subs"][0]
-            cur = env[s["args"][0]["v"]]
-            xs = env[s["args"][1]["v"]]
+            a = np_args("Scan", s["args"], env)
+            curs, xs = list(a[:-1]), a[-1]
+            ns = len(curs)
             acc = []
             for it in range(xs.shape[0]):
                 e2 = dict(env)
-                e2[b["ins"][0]], e2[b["ins"][1]] = cur, xs[it]
+                for v, x in zip(b["ins"], curs + [xs[it]]):
+                    e2[v] = x
                 np_block(b["body"], e2, fdesc)
-                cur = e2[b["res"][0]]
-                acc.append(e2[b["res"][1]])
-            env[s["outs"][0]] = cur
-            env[s["outs"][1]] = np.stack(acc)
+                curs = [e2[v] for v in b["res"][:ns]]
+                acc.append(e2[b["res"][ns]])
+            for v, x in zip(s["outs"], curs + [np.stack(acc)]):
+                env[v] = x
     return env
 
 
@@ -384,13 +389,15 @@ def run_block(op, stmts, env, case):
                 bind(s, op.If(arg(s["args"][0]), then_branch=tb, else_branch=eb))
             elif kind == "loop":
                 b = s["subs"][0]
-                outs = [f"co{k}", f"so{k}"] + ([f"sc{k}"] if len(b["res"]) == 3 else [])
-                lb = sub(b, outs, "loop", k, [f"it{k}", f"cn{k}", f"st{k}"])
+                ncar = len(s["args"]) - 2
+                outs = [f"co{k}", f"so{k}"] + ([f"to{k}"] if ncar == 2 else []) + ([f"sc{k}"] if len(b["res"]) > 1 + ncar else [])
+                lb = sub(b, outs, "loop", k, [f"it{k}", f"cn{k}", f"st{k}"] + ([f"s2{k}"] if ncar == 2 else []))
                 bind(s, op.Loop(*[arg(a) for a in s["args"]], body=lb, **_ospec_kw(s, len(s["outs"]))))
             elif kind == "scan":
                 b = s["subs"][0]
-                sb = sub(b, [f"so{k}", f"sc{k}"], "scan", k, [f"ss{k}", f"xi{k}"])
-                bind(s, op.Scan(*[arg(a) for a in s["args"]], body=sb, num_scan_inputs=1, **_ospec_kw(s, 2)))
+                two = len(s["args"]) == 3
+                sb = sub(b, [f"so{k}"] + ([f"to{k}"] if two else []) + [f"sc{k}"], "scan", k, [f"ss{k}"] + ([f"s2{k}"] if two else []) + [f"xi{k}"])
+                bind(s, op.Scan(*[arg(a) for a in s["args"]], body=sb, num_scan_inputs=1, **_ospec_kw(s, len(s["outs"]))))
             elif kind in ("call", "inline"):
                 f = fobjs[s["fn"] - 1]["obj"]
                 kw = {}
@@ -628,6 +635,8 @@ def _tree_classes():
                 x = m(op, x)
             return x
         if isinstance(ch, nn.ModuleList):
+            if getattr(ch, "c18_donor", False):      # its children were handed to a Sequential, which calls them
+                return x
             lp = pol["lp"]
             if lp == "rev":
                 seq = list(ch[::-1])
@@ -687,6 +696,10 @@ def build_tree(case):
         elif h[0] == "append":
             l, c = divmod(h[3], 100)
             objs[l].append(objs[c])
+        elif h[0] == "share":                     # objs[s] = Sequential(*objs[l])
+            l, sq = divmod(h[3], 100)
+            objs[sq] = nn.Sequential(*objs[l])
+            object.__setattr__(objs[l], "c18_donor", True)
     return objs
 
 
@@ -716,6 +729,9 @@ def replay_tree(case):
         sd = list(root.state_dict().keys())
         obs["state_dict"] = sd
         obs["named_parameters"] = [k for k, _ in root.named_parameters()]
+        obs["keys_by_param"] = {}
+        for k, prm in root.named_parameters():
+            obs["keys_by_param"].setdefault(str(prm.pid), []).append(k)
         byid = {id(p): k for k, p in root.named_parameters()}
         g, gb, out = _trace_tree(root)
     except Exception as ex:  # noqa: BLE001
@@ -746,7 +762,7 @@ def replay_tree(case):
     # the same tree built into a second graph
     try:
         g2, _, _ = _trace_tree(root)
-        obs["second"] = [k for k, v in g2.initializers.items() if getattr(v, "pid", 0)]
+        obs["second"] = [[k, v.pid] for k, v in g2.initializers.items() if getattr(v, "pid", 0)]
     except Exception as ex:  # noqa: BLE001
         obs["second_err"] = f"{type(ex).__name__}: {str(ex)[:200]}"
     return obs
@@ -876,6 +892,19 @@ def judge_trace(ctx, case, obs, wf):
     return mism
 
 
+def regs_bad(pairs, kbp, pre):
+    """parameters NOT registered exactly once under root name + one of their own state_dict keys"""
+    regs = {}
+    for k, pid in pairs:
+        regs.setdefault(str(pid), []).append(k)
+    bad = [pid for pid in kbp if len(regs.get(pid, [])) != 1 or regs[pid][0] not in [pre + k for k in kbp[pid]]]
+    bad += [pid for pid in regs if pid not in kbp]
+    names = [k for k, _ in pairs]
+    if len(set(names)) != len(names):
+        bad.append("duplicate names")
+    return sorted(set(bad))
+
+
 def judge_tree(ctx, case, obs, wf):
     mism = []
     why = sorted(case["why"])
@@ -898,15 +927,16 @@ def judge_tree(ctx, case, obs, wf):
         mism.append(f"initializers {obs['inits']} differ from the model's {[[k, p] for k, p in md.items()]}")
     if obs.get("value") != [case["value"]] * 2 and "run_err" not in obs:
         mism.append(f"value {obs.get('value')} differs from the model's {case['value']}")
-    if obs.get("second") != list(case["second"]):
+    if [k for k, _ in obs.get("second") or []] != list(case["second"]):
         mism.append(f"second build {obs.get('second')} differs from the model's {case['second']}")
-    # ---- property
+    # ---- property: every parameter is registered exactly once, under root name + one of ITS state_dict keys
     names = [k for k, _ in obs["inits"]]
-    nparams = len(obs["state_dict"])
-    if sorted(names) != sorted(expected) or len(names) != nparams:
+    kbp = obs["keys_by_param"]
+    bad = regs_bad(obs["inits"], kbp, pre)
+    if bad:
         fid = why[0] if (why and not mism) else None
         _report(ctx, dict(small, initializers=obs["inits"], expected=expected),
-                   f"parameter initializers {names} are not root name + state_dict keys {expected}", finding=fid)
+                   f"parameter initializers {names} are not root name + state_dict keys {expected} (parameters {sorted(bad)})", finding=fid)
     if obs.get("scope_left"):
         _report(ctx, dict(small, scope=obs["scope_left"]), f"scope stack not balanced after tracing: {obs['scope_left']}")
     if "run_err" in obs:
@@ -922,7 +952,7 @@ def judge_tree(ctx, case, obs, wf):
         if dv or dn:
             fid = "subgraph_name_reuse" if _cross_graph(dict(dv, **{"node:" + k: v for k, v in dn.items()})) else None
             _report(ctx, dict(small, duplicate_values=dv, duplicate_nodes=dn), f"names are not unique: values {sorted(dv)[:4]} nodes {sorted(dn)[:4]}", finding=fid)
-    if nparams and obs.get("second") != expected:
+    if kbp and regs_bad(obs.get("second") or [], kbp, pre):
         _report(ctx, dict(small, second=obs.get("second"), expected=expected),
                    f"building the same tree into a second graph registers {obs.get('second')} instead of {expected}",
                    finding="realized_sticky" if obs.get("second") == [] else None)
@@ -962,6 +992,7 @@ def run(ctx: core.Ctx):
         "Builder simulate": dict(module="Builder", cfg="Builder_sim.cfg", env=env, workers=8, simulate=f"num={24 if q else 300}", depth=45,
                                  seed=ctx.seed + 1, timeout=3000),
         "Builder untyped": dict(module="Builder", cfg="Builder_untyped.cfg", env=env, workers=4, timeout=3000),
+        "Builder carry": dict(module="Builder", cfg="Builder_carry.cfg", env=env, workers=3, timeout=3000),
         "Builder design": dict(module="Builder", cfg="Builder_design.cfg", env=env, workers=2, timeout=3000),
         "Builder vacuity": dict(module="Builder", cfg="Builder_vacuity.cfg", env=env, workers=1, timeout=1500),
         "ModuleTree exhaustive": dict(module="ModuleTree", cfg="ModuleTree_quick.cfg" if q else "ModuleTree_thorough.cfg", workers=2 if q else w, timeout=3000),
@@ -984,7 +1015,7 @@ def run(ctx: core.Ctx):
     # ---------------- part 1: traces
     seen = set()
     traces = []
-    for label in ("Builder exhaustive", "Builder untyped", "Builder simulate"):
+    for label in ("Builder exhaustive", "Builder untyped", "Builder carry", "Builder simulate"):
         for c in _cases(res[label], "CASE"):
             key = json.dumps(c["prog"], sort_keys=True)
             if key not in seen:
@@ -1016,14 +1047,16 @@ def run(ctx: core.Ctx):
     if q and len(traces) > 2600:
         # keep the cases the implementation model marks as deviating and every case in which a literal meets an untyped
         # value inside a subgraph (helper nodes created in an inner scope), sample the rest
-        sharp = [c for c in traces if not c["why"] and untyped_literal_in_subgraph(c)]
+        issharp = {id(c): untyped_literal_in_subgraph(c) or literal_carried(c) for c in traces}
+        sharp = [c for c in traces if not c["why"] and issharp[id(c)]]
         dev = [c for c in traces if c["why"]]
-        rest = [c for c in traces if not c["why"] and not untyped_literal_in_subgraph(c)]
+        rest = [c for c in traces if not c["why"] and not issharp[id(c)]]
         for l in (sharp, dev, rest):
             rng.shuffle(l)
-        sharp, dev = sharp[:900], dev[:500]
+        sharp, dev = sharp[:1500], dev[:500]
         traces = dev + sharp + rest[: max(0, 2600 - len(dev) - len(sharp))]
     ctx.set("traces_with_untyped_literal_in_subgraph", sum(1 for c in traces if untyped_literal_in_subgraph(c)))
+    ctx.set("traces_with_literal_loop_carried_operand", sum(1 for c in traces if literal_carried(c)))
     obs = core.pmap_safe(_trace_worker, traces, timeout=120)
     items = []
     for i, o in enumerate(obs):
@@ -1048,15 +1081,19 @@ def run(ctx: core.Ctx):
     if len(trees) > cap:
         # every tree in which a POPULATED container is appended into another container (names must be re-qualified through
         # the nested container), a share of those assigned to a Module attribute, the deviating ones, a sample of the rest
-        pba = {id(c): populated_before_attach(c) for c in trees}
+        # ... and every tree with a child that already had a name when its container registered it (explicit name,
+        # or the children of a ModuleList handed to a Sequential)
+        pba = {id(c): (3 if prenamed(c) else populated_before_attach(c)) for c in trees}
+        pren = [c for c in trees if pba[id(c)] == 3]
         nested = [c for c in trees if pba[id(c)] == 2]
         attr = [c for c in trees if pba[id(c)] == 1]
         dev = [c for c in trees if c["why"] and pba[id(c)] == 0]
         rest = [c for c in trees if not c["why"] and pba[id(c)] == 0]
-        for l in (nested, attr, dev, rest):
+        for l in (pren, nested, attr, dev, rest):
             rng.shuffle(l)
-        nested, attr, dev = nested[: cap], attr[: cap // 3], dev[: cap // 3]
-        trees = nested + attr + dev + rest[: max(cap // 3, cap - len(nested) - len(attr) - len(dev))]
+        pren, nested, attr, dev = pren[: cap], nested[: cap], attr[: cap // 3], dev[: cap // 3]
+        trees = pren + nested + attr + dev + rest[: max(cap // 3, cap - len(pren) - len(nested) - len(attr) - len(dev))]
+    ctx.set("trees_with_prenamed_container_child", sum(1 for c in trees if prenamed(c)))
     ctx.set("trees_with_populated_container_nested", sum(1 for c in trees if populated_before_attach(c) == 2))
     tobs = core.pmap_safe(replay_tree, trees, timeout=120)
     tsel = set(rng.sample(range(len(trees)), min(len(trees), 250 if q else 3000)))
@@ -1135,9 +1172,9 @@ def replay(ctx, path):
         o = replay_tree({"hist": case["hist"], "pol": case["pol"], "rootkind": case["rootkind"], "rootname": case["rootname"]})
         print(json.dumps({k: v for k, v in o.items() if k not in ("abstract", "nodes")}, indent=1))
         pre = "" if case["rootname"] == "<none>" else case["rootname"] + "."
-        expected = [pre + k for k in o.get("state_dict", [])]
-        bad = (o.get("err") or "run_err" in o or sorted(k for k, _ in o.get("inits", [])) != sorted(expected)
-               or (expected and o.get("second") != expected)
+        kbp = o.get("keys_by_param", {})
+        bad = (o.get("err") or "run_err" in o or regs_bad(o.get("inits", []), kbp, pre)
+               or (kbp and regs_bad(o.get("second") or [], kbp, pre))
                or ("own_tensor_value" in case and o.get("value") != [case["own_tensor_value"]] * 2))
         print("property holds now" if not bad else "property still violated")
         return 1 if bad else 0
@@ -1160,6 +1197,9 @@ def populated_before_attach(case):
     for h in case["hist"]:
         if h[0] == "new":
             kinds[len(kinds) + 1] = h[1]
+        elif h[0] == "share":
+            l, sq = divmod(h[3], 100)
+            nkids[sq] = nkids.get(l, 0)
         else:
             p, c = divmod(h[3], 100)
             if kinds[c] in ("L", "S") and nkids.get(c, 0) > 0:
@@ -1180,3 +1220,11 @@ def untyped_literal_in_subgraph(case):
         return False
 
     return rec(case["prog"], 0)
+
+
+def prenamed(case):
+    return any(o.get("pre") for o in case["objs"])
+
+
+def literal_carried(case):
+    return any((s["kind"] == "loop" and len(s["args"]) == 4) or (s["kind"] == "scan" and len(s["args"]) == 3) for s in walk(case["prog"]))
